@@ -754,15 +754,57 @@ class _MspFile:
         return self.state
 
 
-@contract("stepup/core/workflow.py::Workflow.mark_file_outdated", props=[], verify=False, note="BUILT file becomes OUTDATED")
+class _MfoFile:
+    """A file node as mark_file_outdated uses it: state (read and written), path (for the log)."""
+
+    def __init__(self, name):
+        self.state = ty.EnumOf(FileState).fresh(name + ".state")
+        self.path = ty.Str.fresh(name + ".path")
+
+    def get_state(self):
+        return self.state
+
+    def set_state(self, s):
+        cur().event("file.set_state", file=self, state=s, old=self.state)
+        self.state = s
+
+    def __snapshot__(self):
+        o = object.__new__(_MfoFile)
+        o.__dict__.update(self.__dict__)
+        return o
+
+
+def _mfo_refused(state):
+    return wrap_bool(tm.Not(tm.Or(tm.Eq(I(state), tm.mk_int(FileState.BUILT.value)),
+                                  tm.Eq(I(state), tm.mk_int(FileState.OUTDATED.value)))))
+
+
+def _mfo_finish(c, outcome, args, old):
+    sets = [e for e in c.trace if e.kind == "file.set_state"]
+    marks = [e for e in c.trace if e.kind == "mark_consuming_steps_pending"]
+    if outcome[0] == "return":
+        was_built = tm.mk_bool(len(sets) == 1)
+        c.prove("consumers_marked_iff_the_file_was_built", tm.mk_bool(len(marks) == len(sets) and len(sets) <= 1), kind="trace")
+
+
+@contract("stepup/core/workflow.py::Workflow.mark_file_outdated", props=["C09", "C03"],
+          note="BUILT file becomes OUTDATED")
 class mfo_assumed:
+    """A BUILT file becomes OUTDATED (and its consumers are marked pending), an OUTDATED file stays as it is, any
+    other state is refused: the only transition is BUILT -> OUTDATED, inside the OUTPUT role."""
+
+    args = dict(self=common.workflow_spec(), file=ty.Make(_MfoFile))
     # raises only for a file that is neither BUILT nor OUTDATED (see the function body)
-    may_raise = {common.ConsistencyError: lambda file: ~((file.state == FileState.BUILT) | (file.state == FileState.OUTDATED))}
+    raises = {common.ConsistencyError: lambda old: _mfo_refused(old.file.state)}
+    events = {"file.set_state": lambda e: wrap_bool(tm.And(tm.Eq(I(e.old), tm.mk_int(FileState.BUILT.value)),
+                                                           tm.Eq(I(e.state), tm.mk_int(FileState.OUTDATED.value))))}
+    finish = _mfo_finish
     modifies = []
 
     @staticmethod
     def ensures(self, file):
-        cur().event("mark_file_outdated", file=file)
+        if cur().data.get("active") != "stepup/core/workflow.py::Workflow.mark_file_outdated":
+            cur().event("mark_file_outdated", file=file)
         return True
 
 
